@@ -2488,6 +2488,10 @@ func (self *TextServerProtocol) ProcessLockResultCommand(lockCommand *protocol.L
 		0, 0, 0, 0, 0, 0, 0, 0,
 		0, 0, 0, 0, 0, 0, 0, 0
 
+	if self.closed {
+		// Close() is executing the wills: nobody reads lockWaiter any more, a send would block the drain
+		return nil
+	}
 	if self.freeCommandResult == nil {
 		lockResultCommad := protocol.NewLockResultCommand(lockCommand, result, 0, lcount, lockCommand.Count, lrcount, lockCommand.Rcount, data)
 		self.lockWaiter <- lockResultCommad
